@@ -416,6 +416,18 @@ func init() {
 			}
 			panic(unsupported(fmt.Sprintf("reflect.Value.IsZero of %T", v)))
 		},
+		// virtual file system: a path exists iff the harness declared it (zzvrt.VFile)
+		"os.Stat": func(fr *frame, a []value) value {
+			if fr.i.x.declared["vfile:"+filepath.Clean(a[0].(string))] {
+				return tuple{iface{}, iface{}}
+			}
+			return tuple{iface{}, fr.i.mkError("stat " + a[0].(string) + ": no such file or directory (virtual file system)")}
+		},
+		"os.IsNotExist": func(fr *frame, a []value) value {
+			e := a[0].(iface)
+			return e.t != nil && strings.Contains(fr.i.errString(fr, e), "no such file or directory")
+		},
+		"path/filepath.EvalSymlinks": func(fr *frame, a []value) value { return tuple{a[0], iface{}} },
 		"strconv.Itoa":  func(fr *frame, a []value) value { return fmt.Sprint(a[0].(int)) },
 		"strconv.Quote": func(fr *frame, a []value) value { return fmt.Sprintf("%q", a[0].(string)) },
 	} {
